@@ -80,6 +80,10 @@ def _content(ckind, size, seed):
 @st.composite
 def _case(draw):
     base = draw(st.one_of(gen.tame_base, gen.hostile_name(gopher_ok=True, max_size=6)))
+    if draw(st.integers(0, 11)) == 0:
+        # a name in the 'URL:' namespace: listings render such top-level names as links, but the file itself is a document
+        # like any other when it is requested (a name cannot contain '://', so it is never a real URL: link)
+        base = "URL:" + base
     ext = draw(st.sampled_from(EXTS))
     name = base + ext
     size = draw(st.one_of(st.sampled_from(SIZES), st.integers(0, 300)))
@@ -103,7 +107,8 @@ def strategy(tier):
 
 def _ok(c):
     # (the archive flavour exists with the full handler list only: otherwise the file sits in the real directory)
-    return gen.servable_name(c["name"], toplevel=not c["sub"] and not (c["inzip"] and c["full"]), full=c["full"])
+    n = c["name"][4:] if c["name"].startswith("URL:") else c["name"]
+    return gen.servable_name(n, toplevel=not c["sub"] and not (c["inzip"] and c["full"]), full=c["full"])
 
 
 def examples(tier):
